@@ -157,7 +157,7 @@ def with_restarts(rnd, hist, copies):
     return out
 
 
-def with_crash(hist, block_index, k, tail=2):
+def with_crash(hist, block_index, k, label=None, nth=0, tail=2):
     """the history up to block_index, whose commit dies after the k-th write, then `tail` more blocks"""
     steps = []
     bi = -1
@@ -166,7 +166,10 @@ def with_crash(hist, block_index, k, tail=2):
             bi += 1
             if bi == block_index:
                 st = dict(st)
-                st["k"] = k
+                if label:
+                    st["after"], st["afterN"] = label, nth
+                else:
+                    st["k"] = k
                 steps.append(st)
                 break
         steps.append(st)
